@@ -56,19 +56,39 @@ def gen(rng):
                             e['frames'] = [{'subcategorizationFrame': 'Somebody ----s something'}]
                             break
     ops = [{'k': 'add', 'res': docs.resource(lexs, vs)}, {'k': 'obs'}]
+    if vs != '1.0' and not clash and rng.random() < 0.35:
+        # an extension of a:1 is installed but not exported: what it hangs on a:1's senses and synsets (examples,
+        # relations, counts) is its own, not part of the exported a:1
+        ax_ = g.extension('ax', a, '1', vs, with_forms=False)
+        for e_ in ax_.get('entries', []):
+            # (tags / pronunciations an extension hangs on a base lemma are reported for the base: finding F12,
+            # listed under C01 and C05; not looked for again here)
+            if e_.get('external') and e_.get('lemma'):
+                e_['lemma'].pop('tags', None)
+                e_['lemma'].pop('pronunciations', None)
+            for f_ in e_.get('forms', []):
+                if f_.get('external'):
+                    f_.pop('tags', None)
+                    f_.pop('pronunciations', None)
+        ops.append({'k': 'add', 'res': docs.resource([ax_], vs)})
     provider_gone = False
     if a.get('requires') and rng.random() < 0.6:
         # the lexicon a:1 requires is installed (before or after a:1) and removed again before the export:
         # the <Requires> of a:1 is part of a:1, not of the provider
         q = g.lexicon('q', '9', vs, n_syn=1, n_ent=1)
         qop = {'k': 'add', 'res': docs.resource([q], vs)}
-        if rng.random() < 0.5:
+        q_first = rng.random() < 0.5
+        if q_first:
             ops.insert(0, qop)
         else:
             ops.append(qop)
-        ops.append({'k': 'remove', 'spec': 'q:9'})
-        ops.append({'k': 'obs'})
-        provider_gone = True
+        if not q_first or rng.random() < 0.5:
+            ops.append({'k': 'remove', 'spec': 'q:9'})
+            ops.append({'k': 'obs'})
+            provider_gone = True
+        else:
+            # the provider stays and is exported after its dependant: re-importing the file links them again
+            lexs = lexs + [q]
     if rng.random() < 0.35:
         # another version of a:1 is installed side by side (same entity ids) but not exported
         a2 = copy.deepcopy(a)
@@ -290,6 +310,11 @@ def strip_obs(obs, specs, mask_v10):
                 y['ili'] = {'id': y['ili']['id']}
         x['scope']['ilis'] = sorted(json.dumps(i[:1] if i[0] else i) for i in x['scope']['ilis'])
         x['lexicon']['requires'] = [] if mask_v10 else x['lexicon']['requires']
+        # a declared dependency is linked in the re-imported database only if its provider was exported along
+        x['lexicon']['requires'] = [[r_[0], r_[1] if r_[1] in specs else None] for r_ in x['lexicon']['requires']]
+        # extensions that are installed but not exported are not part of the exported lexicons
+        x['lexicon']['extensions'] = [e for e in x['lexicon'].get('extensions', []) if e in specs]
+        x['lexicon']['all_extensions'] = [e for e in x['lexicon'].get('all_extensions', []) if e in specs]
     return o
 
 
@@ -299,7 +324,7 @@ def judge(ctx, sc, im, mo):
         return
     docs_ = {f"{lx['id']}:{lx['version']}": lx for op in sc['ops'] if op['k'] == 'add' for lx in op['res']['lexicons']}
     vs = sc['source_version']
-    base_obs = im[1]
+    base_obs = next((o for o in im if isinstance(o, list)), im[1])       # the first observation of the history
     for k, op in enumerate(sc['ops']):
         if op['k'] != 'export':
             continue
@@ -312,7 +337,7 @@ def judge(ctx, sc, im, mo):
         ctx.dist['source=' + vs] += 1
         several = len(specs) > 1
         clash = sc['clash'] and several
-        feats = any(lx.get('frames') or any(e.get('frames') for e in lx.get('entries', [])) or any(y['ili'] == 'in' for y in lx.get('synsets', []))
+        feats = any(lx.get('frames') or any(e.get('frames') for e in lx.get('entries', [])) or any(y.get('ili') == 'in' for y in lx.get('synsets', []))
                     for lx in docs_.values())
         ctx.case((json.dumps(sc['ops'][0], sort_keys=True, default=str)[:3000], v, op['lexicons']) if (feats or several) else None)
         if clash:
